@@ -67,6 +67,52 @@ def correspondence(ctx):
     for s, res, m in zip(scns, impl, model):
         if res.exit != 0:
             ctx.disagree("consistent:must-pass", bb.describe(s), {"exit": res.exit, "stderr": res.stderr.decode(errors="replace")[-300:]}, {"expected": "consistent chain is accepted"}, True, {"scenario": bb.scenario_dump(s), "observable": "consistent-accepted"})
+    # consistent blocks containing the SAME transaction more than once, also at sibling positions of the merkle tree ([cb,t1,t2,t2],
+    # [cb,t1,t2,t3,t4,t5,t4,t5]): the header's root IS the Bitcoin merkle root of the txids, so the chain must be accepted
+    scns = []
+    for k in range(ctx.n(8, 40)):
+        coin = K.COINS[k % 8]
+        blocks = GC.gen_chain(r, coin, 4, max_txs=1, max_io=2, genesis=gen.get(coin) if k % 2 == 0 else None, segwit=False, auxpow_mix=False)
+        for b in blocks[1:]:
+            ts = [K.Tx([(GC.rb(r, 32), q, b"\x01\x01", 1)], [(q + 1, GC.spk(r, coin, "p2pkh"))]) for q in range(5)]
+            shape = r.choice([[0, 1, 1], [0, 1, 2, 3, 4, 3, 4], [0, 0], [0, 1, 0, 1], [0, 1, 2, 2], [0, 1, 2, 3, 3, 3, 3]])
+            b.txs += [ts[q] for q in shape]
+        prev = blocks[0].hash()
+        for b in blocks[1:]:
+            b.prev = prev
+            b.merkle_root = None
+            prev = b.hash()
+        s = K.Scenario(coin=coin, callback="csvdump", verify=True)
+        GC.simple_layout(s, blocks)
+        s.start = 0 if (coin in gen and k % 2 == 0) else 1
+        s.meta = {"dup-siblings": k}
+        scns.append(s)
+    impl, model = bb.check(ctx, "consistent-duplicates", scns, CMP)
+    for s, res, m in zip(scns, impl, model):
+        if res.exit != 0:
+            ctx.disagree("consistent:must-pass", bb.describe(s), {"exit": res.exit, "stderr": res.stderr.decode(errors="replace")[-300:]}, {"expected": "consistent chain is accepted"}, True, {"scenario": bb.scenario_dump(s), "observable": "consistent-accepted"})
+    # the genesis check is on the BYTES read for height 0: a real genesis block (index key = the published hash) with one header bit
+    # flipped outside the merkle field — its merkle relation intact — or with any transaction bit flipped, must be rejected
+    for coin, gblock in sorted(gen.items()):
+        blocks = GC.gen_chain(r, coin, 3, max_txs=1, genesis=gblock, auxpow_mix=False)
+        graw = gblock.enc()
+        hdrbits = [(p, b) for p in list(range(0, 36)) + list(range(68, 80)) for b in range(8)]
+        txb = [(p, b) for p in range(81, len(graw)) for b in range(8)]
+        pos = hdrbits + txb if ctx.thorough() else [hdrbits[r.randrange(len(hdrbits))] for _ in range(ctx.n(10, 0))] + [(4, 0), (35, 7), (0, 0), (68, 0), (79, 7)] + [txb[r.randrange(len(txb))] for _ in range(ctx.n(4, 0))]
+        scns = []
+        for (p, bit) in pos:
+            s = K.Scenario(coin=coin, callback="csvdump", verify=True)
+            GC.simple_layout(s, blocks)
+            name = K.blkname(0)
+            segs = s.files[name]["segs"]
+            for k, (off, data) in enumerate(segs):
+                if data[8:] == graw:
+                    d = bytearray(data)
+                    d[8 + p] ^= 1 << bit
+                    segs[k] = (off, bytes(d))
+            s.meta = {"genesis-flip": "%s %d.%d" % (coin, p, bit)}
+            scns.append(s)
+        must_fail_at(ctx, "genesis-tamper", scns, lambda s: 0)
     # negative genesis on all coins
     scns = []
     for coin in K.COINS:
@@ -106,7 +152,8 @@ def correspondence(ctx):
     for last_kind in ("tip", "end"):
         tgt = 3 if last_kind == "tip" else 2
         raw = blocks[tgt].enc()
-        hi = [(p, 7) for p in range(hdr_len, len(raw))] + [(p, 6) for p in range(hdr_len, len(raw), 3)]
+        # enlarging flips: bit 7 of every small byte (counts, lengths and push opcodes are small values), bit 6 of every fifth byte
+        hi = [(p, 7) for p in range(hdr_len, len(raw)) if raw[p] <= 0x4b] + [(p, 6) for p in range(hdr_len, len(raw), 5)]
         allb = [(p, b) for p in range(hdr_len, len(raw)) for b in range(8)]
         pos2 = allb if ctx.thorough() else hi + [allb[r.randrange(len(allb))] for _ in range(ctx.n(60, 0))]
         scns = []
